@@ -202,7 +202,8 @@ def obligations(tier, rng):
     if quick:
         base = [f for f in fs if refsem.size(f) <= 3]
         rest = [f for f in fs if refsem.size(f) > 3]
-        fs = base + rng.sample(rest, min(len(rest), 160))
+        always_in = [('and', ('next', X), Y), ('or', ('eventually_t', X, 0, 2), ('historically_t', Y, 0, 1))]   # twin picks / regressions
+        fs = base + always_in + rng.sample(rest, min(len(rest), 160))
     for f in fs:
         h = hor(f)
         if h > 8:
